@@ -47,6 +47,8 @@ type detail struct {
 	Note     string   `json:"note,omitempty"`
 	Docs     []string `json:"docs,omitempty"`
 	Queries  []qspec  `json:"queries,omitempty"`
+	Spec     *subjSpec  `json:"subject_spec,omitempty"` // recipe of a large generated subject (wrapper cases)
+	BigDocs  []subjSpec `json:"big_docs,omitempty"`     // recipes of the large documents of an end-to-end shard (indexed after Docs)
 }
 
 type qspec struct {
@@ -335,11 +337,82 @@ func diffClass(compiled string, subj []byte, sg, sr [][]int) string {
 		return "grafana:foldcase-bytelen"
 	case who == "re2" && insideRune(sr):
 		return "re2:span-inside-rune"
+	case who == "re2" && hasNullableLoop(compiled) && sameStartDifferentEnd(sg, sr):
+		// both engines find a match at the same offset but prefer different ends, and the pattern repeats a sub-expression
+		// that can match the empty string (RE2 and Go's regexp resolve the priority of empty iterations differently)
+		return "re2:nullable-loop-priority"
 	case strings.Contains(compiled, `\p`) || strings.Contains(compiled, `\P`):
 		return who + ":unicode-class"
 	default:
 		return who + ":other"
 	}
+}
+
+// nullable: the regexp can match the empty string.
+func nullable(re *syntax.Regexp) bool {
+	switch re.Op {
+	case syntax.OpEmptyMatch, syntax.OpStar, syntax.OpQuest, syntax.OpBeginLine, syntax.OpEndLine, syntax.OpBeginText, syntax.OpEndText,
+		syntax.OpWordBoundary, syntax.OpNoWordBoundary:
+		return true
+	case syntax.OpLiteral:
+		return len(re.Rune) == 0
+	case syntax.OpCapture, syntax.OpPlus:
+		return nullable(re.Sub[0])
+	case syntax.OpRepeat:
+		return re.Min == 0 || nullable(re.Sub[0])
+	case syntax.OpConcat:
+		for _, s := range re.Sub {
+			if !nullable(s) {
+				return false
+			}
+		}
+		return true
+	case syntax.OpAlternate:
+		for _, s := range re.Sub {
+			if nullable(s) {
+				return true
+			}
+		}
+		return false
+	}
+	return false
+}
+
+// hasNullableLoop: some repetition (*, +, {n,m}) has an operand that can match the empty string.
+func hasNullableLoop(compiled string) bool {
+	t, err := syntax.Parse(compiled, syntax.Perl)
+	if err != nil {
+		return false
+	}
+	var walk func(re *syntax.Regexp) bool
+	walk = func(re *syntax.Regexp) bool {
+		switch re.Op {
+		case syntax.OpStar, syntax.OpPlus, syntax.OpRepeat:
+			if nullable(re.Sub[0]) {
+				return true
+			}
+		}
+		for _, s := range re.Sub {
+			if walk(s) {
+				return true
+			}
+		}
+		return false
+	}
+	return walk(t)
+}
+
+// sameStartDifferentEnd: the first differing match starts at the same offset in both lists.
+func sameStartDifferentEnd(a, b [][]int) bool {
+	for i := 0; i < len(a) && i < len(b); i++ {
+		if a[i][0] != b[i][0] {
+			return false
+		}
+		if a[i][1] != b[i][1] {
+			return true
+		}
+	}
+	return false
 }
 
 func (rn *runner) thresholdParsing(quick bool) {
@@ -441,7 +514,11 @@ func (rn *runner) dispatch(r *gen.Rand, n int) {
 var envSettings = []string{"unset", "-1", "0", "1", "64", "1000000000", "abc"}
 
 // endToEnd builds one shard and runs the same queries in one child process per environment setting.
-func (rn *runner) endToEnd(docs [][]byte, qs []qspec) {
+func (rn *runner) endToEnd(docs [][]byte, qs []qspec, big ...subjSpec) {
+	small := docs
+	for _, sp := range big {
+		docs = append(docs[:len(docs):len(docs)], buildSubject(sp))
+	}
 	work := os.Getenv("VERIF_WORK")
 	if work == "" {
 		work = os.TempDir()
@@ -496,7 +573,7 @@ func (rn *runner) endToEnd(docs [][]byte, qs []qspec) {
 		out, err := outs[i].out, outs[i].err
 		if err != nil {
 			rn.w.Emit(gen.Case{Go: "search child failed under " + e + ": " + err.Error(), Key: "e2e-child-crashed", Class: "e2e",
-				Detail: gen.Detail(detail{Env: e, Queries: qs, Docs: docStrings(docs)})})
+				Detail: gen.Detail(detail{Env: e, Queries: qs, Docs: docStrings(small), BigDocs: big})})
 			return
 		}
 		var res []string
@@ -518,7 +595,7 @@ func (rn *runner) endToEnd(docs [][]byte, qs []qspec) {
 					kind = "panic"
 				}
 				key = "e2e-threshold-changes-results:" + kind
-				d = detail{Env: e, Queries: []qspec{q}, Docs: docStrings(docs)}
+				d = detail{Env: e, Queries: []qspec{q}, Docs: docStrings(small), BigDocs: big}
 				break
 			}
 		}
@@ -589,6 +666,23 @@ func explainE2E(q qspec, docs [][]byte) string {
 			}
 		}
 	}
+	// the engines agree on every document: does the wrapper itself return something else than the engine it selects?
+	for _, t := range []int64{0, 1, 64} {
+		verifhooks.HybridSetThreshold(t)
+		h, err := verifhooks.HybridCompile(compiled)
+		verifhooks.HybridSetThreshold(-1)
+		if err != nil {
+			return "hybrid-compile-error"
+		}
+		for _, d := range docs {
+			verifhooks.HybridSetThreshold(t)
+			sh := h.FindAllIndex(d, -1)
+			verifhooks.HybridSetThreshold(-1)
+			if !eqSpans(sh, g.FindAllIndex(d, -1)) {
+				return "hybrid-wrapper"
+			}
+		}
+	}
 	return "unexplained"
 }
 
@@ -636,15 +730,19 @@ func main() {
 			panic(err)
 		}
 		d := rp.Case.Detail
-		if d.Pattern == "" && len(d.Queries) == 0 {
+		if d.Pattern == "" && len(d.Queries) == 0 && d.Spec == nil {
 			d = rp.Detail
 		}
-		if len(d.Queries) > 0 && len(d.Docs) > 0 {
+		if d.Spec != nil {
+			rn.wrapperCase(d.Compiled, *d.Spec, nil, nil, []int{-1, 3})
+			return
+		}
+		if len(d.Queries) > 0 && (len(d.Docs) > 0 || len(d.BigDocs) > 0) {
 			var docs [][]byte
 			for _, s := range d.Docs {
 				docs = append(docs, []byte(s))
 			}
-			rn.endToEnd(docs, d.Queries)
+			rn.endToEnd(docs, d.Queries, d.BigDocs...)
 		}
 		if d.Pattern != "" {
 			cs := !strings.HasPrefix(d.Compiled, "(?i)")
@@ -667,6 +765,8 @@ func main() {
 	t0 := time.Now()
 	rn.thresholdParsing(f.Tier != "thorough")
 	rn.dispatch(r.Fork(), f.N(120, 2000))
+	rn.wrapper(r.Fork(), f.Tier == "thorough")
+	fmt.Fprintf(os.Stderr, "wrapper sweep %.1fs\n", time.Since(t0).Seconds())
 
 	fmt.Fprintf(os.Stderr, "thr+disp %.1fs\n", time.Since(t0).Seconds())
 	g := &gen.PatGen{R: r.Fork()}
@@ -706,6 +806,15 @@ func main() {
 		}
 		hi := min((k+1)*per, len(e2eQs))
 		rn.endToEnd(docs, e2eQs[k*per:hi])
+	}
+	// one more shard with documents above 1 MiB and multi-line / whole-text queries
+	{
+		var docs [][]byte
+		for _, size := range []int{30, 64, 700} {
+			docs = append(docs, bytes.ReplaceAll(longSubject(r, e2eHints, size), []byte{0}, []byte{' '}))
+		}
+		qs := append([]qspec(nil), bigDocQueries...)
+		rn.endToEnd(docs, qs, bigDocSpec(r, f.Tier == "thorough")...)
 	}
 	fmt.Fprintf(os.Stderr, "e2e %.1fs\n", time.Since(t0).Seconds())
 	_ = strconv.Itoa
